@@ -16,6 +16,23 @@ Checking requests (`<op> <args…> => <implementation output>`, answered `model=
   varint <int> => <hex>                    validation of Base/RecWire.varint against the library writers
   wmodel2 <attrs> <now> <recs> => <hex>    Model/RecordWriter.writeV2 ≡ protocol writeToVersion2 (uncompressed)
   lmodel2 <recs-with-ns-times> => <hex>    Model/RecordWriter.legacyBatch ≡ write.go writeRecordBatch
+  wmodel1 / lmodel1                        the v1 writers (protocol writeToVersion1, Conn produce v2), byte-exact
+  wmodel2c / lmodel2c / wmodel1c / lmodel1c <…> <plainhex> => <hex>   the COMPRESSED writers: byte-exact with the
+                                           compressor's output taken from the implementation's bytes, and the
+                                           harness-decompressed payload = the model's uncompressed payload
+  pwset2 <pre> <attrs> <now> <recs> => <hex>  RecordSet.WriteTo on the REAL page buffer already holding <pre> bytes (so that
+                                           placeholders and WriteAt back-patches straddle the 64 KiB page boundary) ≡
+                                           Model/RecordWriterPaged.writeSetV2Paged with the extracted pageSize; also
+                                           checks the statement of Props/C05 recordset_write_paged_spec on the instance
+  pwset2c <pre> <codec> <now> <recs> <plainhex> => <hex>   the same with a compressor installed (writeSetV2PagedC; the
+                                           compressor's bytes are taken from the implementation, as for wmodel2c)
+  pwset1 <pre> <attrs> <recs> <plainhex|-> => <hex>   RecordSet.WriteTo, Version 1, on the real page buffer ≡
+                                           writeV1Paged / writeV1PagedC (render in place, scan, compress, Truncate, wrapper)
+  pbuf <ops,…> => <digests,…>              sequences of Write / WriteAt / ReadAt / scan / Truncate / ref+ReadAt on the real
+                                           pageBuffer (export hook) against Model/PageBuffer with the extracted pageSize
+  ptrace <a|r<id>|f<id>|u<id>,…> => ok <n>   the page-event trace recorded by the hooks in protocol/buffer.go during a
+                                           sequential decode/hold/release/encode scenario is accepted by the LTS of
+                                           Model/Pages (trace acceptance): no page is handed out again while a count is held
   pages <holders> <churners> <rounds> => ok   observational page-safety test (held key/value bytes intact while
                                            other decodes recycle pooled pages); Lean side: Props/C05 pages_safe
 Encoding requests (no ` => `; answered with hex or `error`):
@@ -27,6 +44,10 @@ import KafkaVerif.Spec.Crc
 import KafkaVerif.Spec.RecordBatch
 import KafkaVerif.Model.RecordWriter
 import KafkaVerif.Model.RecordReader
+import KafkaVerif.Model.Pages
+import KafkaVerif.Model.ConnReader
+import KafkaVerif.Model.PageBuffer
+import KafkaVerif.Model.RecordWriterPaged
 
 namespace KV.OracleC05
 open KV KV.RW KV.Spec.RB
@@ -48,7 +69,9 @@ def showHdr (loose : Bool) (h : Hdr) : String := s!"{showBytes false (some h.key
 
 def showRec (loose : Bool) (r : Rec) : String :=
   let hs := if r.headers.isEmpty then "-" else ";".intercalate (r.headers.map (showHdr loose))
-  s!"o{r.offset},t{r.ts},k{showBytes loose r.key},v{showBytes loose r.value},h{hs}"
+  -- a negative timestamp is NO_TIMESTAMP (-1: written by pre-0.10 producers, kept by up-conversion): the harness prints the
+  -- zero time.Time as 0, and that is what "no timestamp" must be delivered as
+  s!"o{r.offset},t{if r.ts < 0 then 0 else r.ts},k{showBytes loose r.key},v{showBytes loose r.value},h{hs}"
 
 def showRecs (loose : Bool) (rs : List Rec) : String :=
   if rs.isEmpty then "none" else "|".intercalate (rs.map (showRec loose))
@@ -166,11 +189,65 @@ def checkWire (tag : String) (bytes : Bytes) (zs : List Z) (impl : String) : Str
       let visible := groups.filter (fun g => !(hide && g.1))
       let recs := (visible.map (·.2)).flatten
       let spec := showRecs loose recs
+      -- Conn path: `model` = the byte-level Conn reader model (Model/ConnReader);
       -- Client.Fetch path: `model` is what the DECODER MODEL (Model/RecordReader) returns for these bytes, the
       -- monitor stays the reference decoder
       let model := if tag.startsWith "fetch/recordset" || tag.startsWith "fetch/client"
-        then showRecs loose (Model.RecordReader.clientFetch crcs (decWith zs) bytes) else spec
+        then showRecs loose (Model.RecordReader.clientFetch crcs (decWith zs) bytes)
+        else if tag.startsWith "fetch/conn"
+        then (match Model.ConnReader.connReadSet (decWith zs) bytes.length bytes with
+              | some rs => showRecs loose rs
+              | none => "conn-model-failed")
+        else spec
       s!"model={model} holds={if spec == impl && prodOk && oneBatch && (!reject || !complete) then 1 else 0}"
+
+/-! ### page traces (hooks in protocol/buffer.go) replayed through Model/Pages -/
+
+/-- replay `a` (alloc), `r<id>` (reuse from the pool), `f<id>` (ref), `u<id>` (unref); real page ids are mapped to
+the model's ids in order of allocation.  Returns the number of accepted events or the index of the rejected one. -/
+def replayPages : List String → Nat → Model.Pages.PState → List (Nat × Nat) → Except Nat (Model.Pages.PState)
+  | [], _, s, _ => .ok s
+  | e :: es, k, s, ids =>
+    let arg := (e.drop 1).toString.toNat?
+    let lookup (p : Nat) : Option Nat := (ids.find? (·.1 == p)).map (·.2)
+    let ev : Option (Model.Pages.PEvent × List (Nat × Nat)) :=
+      if e == "a" then some (.allocPage, ids ++ [(ids.length, s.fresh)])
+      else match arg with
+        | none => none
+        | some p =>
+          match lookup p with
+          | none => none
+          | some m =>
+            if e.startsWith "r" then (s.pool.idxOf? m).map (fun i => (.reusePage i, ids))
+            else if e.startsWith "f" then some (.ref m, ids)
+            else if e.startsWith "u" then some (.unref m, ids)
+            else none
+    match ev with
+    | none => .error k
+    | some (pe, ids') =>
+      match Model.Pages.step s pe with
+      | none => .error k
+      | some s' => replayPages es (k + 1) s' ids'
+
+/-! ### page buffer operations (export hook protocol/verif_export_pages.go) against Model/PageBuffer -/
+
+def digest (b : Bytes) : String := s!"{b.length}:{hex8 (crcs.ieee b)}"
+
+/-- ops: `w<len>.<seed>` Write, `a<off>.<len>.<seed>` WriteAt, `r<off>.<len>` ReadAt, `s<b>.<e>` scan, `t<n>` Truncate,
+`f<b>.<e>.<off>.<n>` ref [b,e) then ReadAt(n bytes at off); read-type ops contribute a digest -/
+def runPbuf (P : Nat) : List String → Model.PageBuffer.PB → List String → Option (List String)
+  | [], _, acc => some acc.reverse
+  | op :: ops, pb, acc =>
+    let args := ((op.drop 1).toString.splitOn ".").mapM (·.toNat?)
+    match op.take 1 |>.toString, args with
+    | "w", some [l, sd] => runPbuf P ops (Model.PageBuffer.write P pb (pattern l sd)) acc
+    | "a", some [off, l, sd] => runPbuf P ops (Model.PageBuffer.writeAt P pb (pattern l sd) off) acc
+    | "r", some [off, n] => runPbuf P ops pb (digest (Model.PageBuffer.readAt P pb off n) :: acc)
+    | "s", some [b, e] => runPbuf P ops pb (digest (Model.PageBuffer.scan P pb b e) :: acc)
+    | "t", some [n] => runPbuf P ops (Model.PageBuffer.truncate pb n) acc
+    | "f", some [b, e, off, n] =>
+      runPbuf P ops pb (digest (Model.PageBuffer.refReadAt P (Model.PageBuffer.refTo P pb b e) b (e - b) off n) :: acc)
+    | _, _ => none
 
 /-! ### requests -/
 
@@ -196,6 +273,82 @@ def step (line : String) : String :=
         match zargs.mapM (parseZ bytes) with
         | none => "bad-op"
         | some zs => checkWire tag bytes zs impl
+    | ["pwset2", pre, attrs, now, recs] =>
+      match pre.toNat?, attrs.toInt?, now.toInt?, (recs.splitOn ";").mapM parseProd with
+      | some pre, some attrs, some now, some rs =>
+        let P := Gen.RecordConsts.pageSize
+        let prefix_ : Bytes := (List.range pre).map (fun i => (i % 251).toUInt8)
+        let pb := Model.RecordWriter.pagesOf P prefix_
+        match Model.RecordWriter.writeSetV2Paged P crcs.castagnoli attrs now rs pb,
+              Model.RecordWriter.writeV2 crcs.castagnoli attrs now rs with
+        | some pb', some bytes =>
+          let fl := Model.PageBuffer.flat pb'
+          let h := toHex (fl.drop (pre - 16))
+          let thm := fl == prefix_ ++ (RW.u32 bytes.length ++ bytes)
+          s!"model={h} holds={if h == impl && thm then 1 else 0}"
+        | _, _ => s!"model=error holds={if impl == "error" then 1 else 0}"
+      | _, _, _, _ => "bad-op"
+    | ["pwset2c", pre, attrs, now, recs, plain] =>
+      -- compressed: the compressor's output is read off the implementation's bytes (after the 16 bytes of old content,
+      -- the 4-byte size and the 61-byte header), written into the model's buffer as ONE chunk; the harness-decompressed
+      -- payload must be the model's uncompressed records
+      match pre.toNat?, attrs.toInt?, now.toInt?, (recs.splitOn ";").mapM parseProd, ofHex plain, ofHex impl with
+      | some pre, some attrs, some now, some rs, some plain, some ib =>
+        let P := Gen.RecordConsts.pageSize
+        let prefix_ : Bytes := (List.range pre).map (fun i => (i % 251).toUInt8)
+        let pb := Model.RecordWriter.pagesOf P prefix_
+        let comp := ib.drop ((min pre 16) + 4 + 61)
+        let first := match rs with | [] => 0 | r0 :: _ => Model.RecordWriter.effTime now r0
+        let inner := Model.RecordWriter.recordsV2 now first 0 rs == plain
+        match Model.RecordWriter.writeSetV2PagedC P crcs.castagnoli [comp] attrs now rs pb,
+              Model.RecordWriter.writeV2C crcs.castagnoli (fun _ => comp) attrs now rs with
+        | some pb', some bytes =>
+          let fl := Model.PageBuffer.flat pb'
+          let h := toHex (fl.drop (pre - 16))
+          let thm := fl == prefix_ ++ (RW.u32 bytes.length ++ bytes)
+          s!"model={h} holds={if h == impl && thm && inner then 1 else 0}"
+        | _, _ => s!"model=error holds={if impl == "error" then 1 else 0}"
+      | _, _, _, _, _, _ => "bad-op"
+    | ["pwset1", pre, attrs, recs, plain] =>
+      -- RecordSet.WriteTo, Version 1, on the real page buffer: uncompressed (attrs % 8 = 0, plain = "-") or with a codec
+      -- (wrapper timestamp = time.Now() and the compressor's output read off the implementation's bytes)
+      match pre.toNat?, attrs.toInt?, (recs.splitOn ";").mapM parseProd, ofHex impl with
+      | some pre, some attrs, some rs, some ib =>
+        let P := Gen.RecordConsts.pageSize
+        let prefix_ : Bytes := (List.range pre).map (fun i => (i % 251).toUInt8)
+        let pb := Model.RecordWriter.pagesOf P prefix_
+        let skip := (min pre 16) + 4
+        let res :=
+          if attrs % 8 = 0 then
+            (Model.RecordWriter.writeSetPagedWith P (fun b => some (Model.RecordWriter.writeV1Paged P crcs.ieee attrs 0 0 rs b)) pb,
+             Model.RecordWriter.writeV1 crcs.ieee attrs 0 0 rs, true)
+          else
+            let comp := ib.drop (skip + 34)
+            let now : Int := match readI64 (ib.drop (skip + 18)) with | some (t, _) => t | none => 0
+            let inner := match ofHex plain with
+              | some pl => Model.RecordWriter.writeV1 crcs.ieee (attrs - attrs % 8) now 0 rs == pl
+              | none => false
+            (Model.RecordWriter.writeSetPagedWith P (fun b => some (Model.RecordWriter.writeV1PagedC P crcs.ieee (fun _ => comp) attrs now rs b)) pb,
+             Model.RecordWriter.writeV1C crcs.ieee (fun _ => comp) attrs now rs, inner)
+        match res with
+        | (some pb', bytes, inner) =>
+          let fl := Model.PageBuffer.flat pb'
+          let h := toHex (fl.drop (pre - 16))
+          let thm := fl == prefix_ ++ (RW.u32 bytes.length ++ bytes)
+          s!"model={h} holds={if h == impl && thm && inner then 1 else 0}"
+        | (none, _, _) => "model=error holds=0"
+      | _, _, _, _ => "bad-op"
+    | ["pbuf", opsText] =>
+      let model := match runPbuf Gen.RecordConsts.pageSize (opsText.splitOn ",") ⟨0, []⟩ [] with
+        | some ds => if ds.isEmpty then "-" else ",".intercalate ds
+        | none => "bad-ops"
+      s!"model={model} holds={if model == impl then 1 else 0}"
+    | ["ptrace", evs] =>
+      let es := if evs == "-" then [] else evs.splitOn ","
+      let model := match replayPages es 0 Model.Pages.init [] with
+        | .ok _ => s!"ok {es.length}"   -- counts never released only keep pages out of the pool (GC frees them)
+        | .error k => s!"rejected-at-{k}"
+      s!"model={model} holds={if model == impl then 1 else 0}"
     | ["pages", _, _, _] => s!"model=ok holds={if impl == "ok" then 1 else 0}"
     | ["crc", kind, hx] =>
       match ofHex hx with
@@ -218,6 +371,56 @@ def step (line : String) : String :=
           | none => "error"
         s!"model={h} holds={if h == impl then 1 else 0}"
       | _, _, _ => "bad-op"
+    | ["wmodel2c", attrs, now, recs, plain] =>
+      match attrs.toInt?, now.toInt?, (recs.splitOn ";").mapM parseProd, ofHex plain, ofHex impl with
+      | some attrs, some now, some rs, some plain, some ib =>
+        let comp := ib.drop 61
+        let first := match rs with | [] => 0 | r0 :: _ => Model.RecordWriter.effTime now r0
+        let h := match Model.RecordWriter.writeV2C crcs.castagnoli (fun _ => comp) attrs now rs with
+          | some b => toHex b
+          | none => "error"
+        let inner := Model.RecordWriter.recordsV2 now first 0 rs == plain
+        s!"model={h} holds={if h == impl && inner then 1 else 0}"
+      | _, _, _, _, _ => "bad-op"
+    | ["lmodel2c", code, recs, plain] =>
+      match code.toInt?, (recs.splitOn ";").mapM parseProd, ofHex plain, ofHex impl with
+      | some code, some rs, some plain, some ib =>
+        let comp := ib.drop 61
+        let base := match rs with | [] => 0 | r0 :: _ => r0.time
+        let h := toHex (Model.RecordWriter.legacyBatchC crcs.castagnoli (fun _ => comp) code rs)
+        let inner := Model.RecordWriter.legacyRecordsWith Model.RecordWriter.tsDelta base 0 rs == plain
+        s!"model={h} holds={if h == impl && inner then 1 else 0}"
+      | _, _, _, _ => "bad-op"
+    | ["wmodel1c", attrs, recs, plain] =>
+      match attrs.toInt?, (recs.splitOn ";").mapM parseProd, ofHex plain, ofHex impl with
+      | some attrs, some rs, some plain, some ib =>
+        let comp := ib.drop 34
+        -- the wrapper's timestamp is `time.Now()` at encoding time: read it off the bytes (offset 18)
+        let now : Int := match readI64 (ib.drop 18) with | some (t, _) => t | none => 0
+        let h := toHex (Model.RecordWriter.writeV1C crcs.ieee (fun _ => comp) attrs now rs)
+        let inner := Model.RecordWriter.writeV1 crcs.ieee (attrs - attrs % 8) now 0 rs == plain
+        s!"model={h} holds={if h == impl && inner then 1 else 0}"
+      | _, _, _, _ => "bad-op"
+    | ["wmodel1", attrs, recs] =>
+      match attrs.toInt?, (recs.splitOn ";").mapM parseProd with
+      | some attrs, some rs =>
+        let h := toHex (Model.RecordWriter.writeV1 crcs.ieee attrs 0 0 rs)
+        s!"model={h} holds={if h == impl then 1 else 0}"
+      | _, _ => "bad-op"
+    | ["lmodel1", recs] =>
+      match (recs.splitOn ";").mapM parseProd with
+      | some rs =>
+        let h := toHex (Model.RecordWriter.legacyMessageSet crcs.ieee rs)
+        s!"model={h} holds={if h == impl then 1 else 0}"
+      | none => "bad-op"
+    | ["lmodel1c", code, recs, plain] =>
+      match code.toInt?, (recs.splitOn ";").mapM parseProd, ofHex plain, ofHex impl with
+      | some code, some rs, some plain, some ib =>
+        let comp := ib.drop 34
+        let h := toHex (Model.RecordWriter.legacyWrapper crcs.ieee (fun _ => comp) code rs)
+        let inner := Model.RecordWriter.legacyInner crcs.ieee 0 rs == plain
+        s!"model={h} holds={if h == impl && inner then 1 else 0}"
+      | _, _, _, _ => "bad-op"
     | ["lmodel2", recs] =>
       match (recs.splitOn ";").mapM parseProd with
       | some rs =>
